@@ -206,6 +206,11 @@ func fnHRandField(ctx *cmdContext, args map[string]any) (output respValue, err e
 			c = &c32
 		}
 		_, withValues = options.get("withvalues")
+		if hasCount && withValues && (count < -math.MaxInt64/2 || count > math.MaxInt64/2) {
+			// twice as many values as the count are returned: the count must leave room
+			output.data = respErrorString("ERR value is out of range")
+			return
+		}
 	}
 	output = ctx.dsc.getHashTableRandField(keyName, c, withValues)
 	return
